@@ -160,6 +160,16 @@ Definition valid_f (fuel : nat) (c : case) : Prop :=
   end.
 Definition valid : case -> Prop := valid_f explore_fuel.
 
+(* [valid] as a boolean (every part of it is decidable from the case): C20_validb_valid *)
+Definition validb_f (fuel : nat) (c : case) : bool :=
+  match c with
+  | Seq _ _ => true
+  | Conc Tftp pre ops => snd (texplore fuel pre ops)
+  | Conc Http pre ops => snd (hexplore fuel pre ops)
+  | Xfer e => with_sock e && with_file e
+  end.
+Definition validb : case -> bool := validb_f explore_fuel.
+
 (* ---------- sx ---------- *)
 Definition asSop (x : sx) : option sop :=
   match x with I 0%Z => Some SStart | I 1%Z => Some SStop | I 2%Z => Some SRequest | I 3%Z => Some STick | I 4%Z => Some SStopBusy | I 5%Z => Some SStartFail | I 6%Z => Some SStartThreadFail | _ => None end.
@@ -200,11 +210,5 @@ Definition entry (x : sx) : sx :=
   | None => sxS "bad-case"
   | Some (c, io) =>
       let m := run_model c in
-      L [ sx_obs m; L (map sxS (holds c m)); L (map sxS (holds c io));
-          (* A.1 (ii): what the known bug variants do on this case, so that the harness can say which one the
-             implementation matches: HttpServer.start without clean-up when Thread.start() fails *)
-          match c with
-          | Seq Http h => sx_obs (OSeq (hseq true false hinit h))
-          | _ => L []
-          end ]
+      L [ sx_obs m; L (map sxS (holds c m)); L (map sxS (holds c io)); L []; sxBool (validb c) ]
   end.
